@@ -731,7 +731,8 @@ class Engine:
                 return z3.BoolVal(False)
             return z3.And(*[self.eq(x, y, fr) for x, y in zip(a.t, b.t)]) if a.t else z3.BoolVal(True)
         if a.k == "py" or b.k == "py":
-            ext_const = lambda v: v.k == "py" and isinstance(v.t, ExtRef) and v.t.recv is None
+            # an external constant (np.nan, ...) or a data attribute of a dynamic value (x.attr): opaque stable values
+            ext_const = lambda v: v.k == "py" and isinstance(v.t, ExtRef) and (v.t.recv is None or v.t.recv.k in ("V", "obj"))
             if (ext_const(a) or a.k != "py") and (ext_const(b) or b.k != "py"):
                 return self.as_V(a) == self.as_V(b)      # external constants (np.nan, ...) are opaque stable values
             if a.k == "py" and b.k == "py":
